@@ -21,6 +21,8 @@ func init() {
 }
 
 func runC13(c *eng.Ctx) {
+	c.Rule("R13.9", "K2")
+	ruleRegisteredMemberIsThisCall(c)
 	p := c.P
 	cons := p.Field("server", "partition", "consumers")
 	if cons == nil {
